@@ -360,7 +360,52 @@ def run(ck):
     f = charset_history_fail()
     if f:
         ck.oracle_fail({'scenario': 'charset history'}, f)
+    ck.evaluations += 1
+    ck.count('refused_saves')
+    f = refused_save_fail()
+    if f:
+        ck.oracle_fail({'scenario': 'refused save'}, f)
     return ck.finish(RULE, assumptions=['in-place mutation of message objects other than through setattr is not an edit route'])
+
+
+def refused_save_fail():
+    """A save that is refused (a time that is no whole number of ticks, a real-time message, a type-0 file with two tracks) -
+    or that succeeds - leaves the contents of the file what they were: the same message objects with the same values, so
+    everything read from the file afterwards is what it was before."""
+    import io
+    import mido
+
+    def snap(mid):
+        return [(id(m), type(m).__name__, sorted((k, repr(v), type(v).__name__) for k, v in vars(m).items())) for t in mid.tracks for m in t]
+
+    def look(mid):
+        out = []
+        for f in (lambda: mid.length, lambda: [(m.type, m.time) for m in mid], lambda: [(m.type, m.time) for m in mid.merged_track]):
+            try:
+                out.append(f())
+            except Exception as e:      # noqa: BLE001
+                out.append(type(e).__name__)
+        return out
+    for times in ((100.5, 3), (0.25, 99.75, 1), (2.0, 7), (3, 4), (1e-9, 5), (480.0000001,)):
+        for extra in (None, 'clock', 'type0'):
+            msgs_ = [mido.Message('note_on', note=10 + i, time=t) for i, t in enumerate(times)]
+            if extra == 'clock':
+                msgs_.append(mido.Message('clock', time=1))
+            mid = mido.MidiFile(type=0 if extra == 'type0' else 1,
+                                tracks=[mido.MidiTrack(msgs_)] + ([mido.MidiTrack([mido.Message('note_on', time=1.5)])] if extra == 'type0' else []))
+            before, seen = snap(mid), look(mid)
+            for _ in range(2):
+                try:
+                    mid.save(file=io.BytesIO())
+                except Exception:      # noqa: BLE001 - refused: fine
+                    pass
+            if snap(mid) != before:
+                d = next((a, b) for a, b in zip(before, snap(mid)) if a != b)
+                return (f'save() of a file holding the times {times} ({extra or "plain"}) changed the contents of the file: '
+                        f'{d[0][2]} -> {d[1][2]}')
+            if look(mid) != seen:
+                return f'after save() of a file holding the times {times}, length / iteration / merged_track are {look(mid)}; before: {seen}'
+    return None
 
 
 def charset_history_fail(rng=None):
@@ -408,6 +453,8 @@ def charset_history_fail(rng=None):
 def oracle(case):
     if isinstance(case, dict) and case.get('scenario') == 'charset history':
         return charset_history_fail()
+    if isinstance(case, dict) and case.get('scenario') == 'refused save':
+        return refused_save_fail()
     ops = [tuple(tuple(x) if isinstance(x, list) and x and not isinstance(x[0], list) else
                  ([tuple(y) for y in x] if isinstance(x, list) else x) for x in o) for o in case['ops']]
     return run_history(ops)[1]
